@@ -92,7 +92,10 @@ def make_fn(sig, log, excluded=None, annotations=None, is_async=False):
             parts.append('*')
             star = True
         ann = ': A%d' % i if annotations else ''
-        parts.append(NAMES[i] + ann + (' = "D_%s"' % NAMES[i] if dflt else ''))
+        if dflt in ('LIST', 'DICT'):
+            parts.append(NAMES[i] + ann + (' = [7]' if dflt == 'LIST' else ' = {"k": 7}'))
+        else:
+            parts.append(NAMES[i] + ann + (' = "D_%s"' % NAMES[i] if dflt else ''))
     if excluded:
         if not star:
             parts.append('*')
@@ -240,12 +243,25 @@ class Model(pydantic.BaseModel):
     y: str = 'dy'
 
 
+class Strict(pydantic.BaseModel):
+    """a model with a custom validator: its failures carry an exception object in the pydantic error context"""
+    n: int
+
+    @pydantic.field_validator('n')
+    @classmethod
+    def positive(cls, v):
+        if v < 0:
+            raise ValueError('must not be negative')
+        return v
+
+
 ANNS = {
+    'strict': Strict,
     'int': int, 'str': str, 'float': float, 'bool': bool, 'optint': Optional[int], 'listint': List[int],
     'dictstrint': Dict[str, int], 'model': Model, 'enum': Color,
 }
 PVALUES = [0, 1, -3, 1.5, 2.0, '1', 'x', 'red', True, None, [1, 2], ['1'], ['x'], {'k': 1}, {'k': 'v'}, {'x': 1}, {'x': '2', 'y': 'z'},
-           {'x': 'bad'}, {}]
+           {'x': 'bad'}, {}, {'n': 1}, {'n': -1}]
 
 
 def adapter_value(ann, v):
@@ -257,6 +273,9 @@ def adapter_value(ann, v):
 
 
 def gen_pd(ctx):
+    for coerce in (True, False):
+        yield dict(part='pd', anns=('listint',), coerce=coerce, sig=(('pk', 'LIST'),), excluded=None)
+        yield dict(part='pd', anns=('dictstrint', 'int'), coerce=coerce, sig=(('pk', 'DICT'), ('ko', True)), excluded=None)
     for ann in ANNS:
         for coerce in (True, False):
             for dflt in (False, True):
@@ -312,7 +331,7 @@ def run_pd(case, rec):
                             break
                         want_seen[name] = a[1] if case['coerce'] else bound[name]
                     else:
-                        want_seen[name] = 'D_%s' % name
+                        want_seen[name] = {'LIST': [7], 'DICT': {'k': 7}}.get(sig[i][1], 'D_%s' % name)
             del log[:]
             try:
                 r = dispatch(d, disp == 'async', json.dumps({'jsonrpc': '2.0', 'id': 1, 'method': 'f', 'params': inp}))
@@ -357,7 +376,101 @@ def judge_pd(resp, log, accept, want_seen, excl):
     return None
 
 
+class CTXOBJ:
+    pass
+
+
+def gen_ctx(ctx):
+    for v in ('js', 'pd-coerce', 'pd-plain', 'base'):
+        for first in ('f', 'g'):
+            for disp in ('sync', 'async'):
+                for ann in ('int', 'str'):
+                    yield dict(part='ctx', validator=v, first=first, disp=disp, ann=ann)
+
+
+def run_ctx(case, rec):
+    """
+    the context parameter under each validator: never settable by the client, always the server-side object; and the SAME
+    function registered a second time without a context (there 'ctx' is an ordinary, validated parameter) behaves as declared
+    whichever registration is called first (the validators cache per-function data).
+    """
+    from pjrpc.server.validators import BaseValidator
+    v = case['validator']
+    ann = ANNS[case['ann']]
+    log = []
+    is_async = case['disp'] == 'async'
+    ns = {'_log': log, 'A': ann}
+    exec('%sdef f(a: A, ctx, b: A = None):\n    _log.append(dict(a=a, b=b, ctx=ctx))\n    return %r\n' % ('async ' if is_async else '', RESULT), ns)
+    fn = ns['f']
+    good, bad = (1, 'x') if case['ann'] == 'int' else ('s', 5)
+    if v == 'js':
+        t = 'integer' if case['ann'] == 'int' else 'string'
+        validator = vjs.JsonSchemaValidator()
+        fn = validator.validate(schema={'type': 'object', 'properties': {'a': {'type': t}, 'b': {'type': t}}})(fn)
+    elif v.startswith('pd'):
+        validator = vpd.PydanticValidator(coerce=(v == 'pd-coerce'))
+        fn = validator.validate(fn)
+    else:
+        validator = BaseValidator()
+        fn = validator.validate(fn)
+    d = pjrpc.server.AsyncDispatcher() if is_async else pjrpc.server.Dispatcher()
+    d.add(fn, name='f', context='ctx')
+    d.add(fn, name='g')
+    ctxobj = CTXOBJ()
+    typed = v != 'base'
+    # (target, params) -> expected: ('run', what the body sees) | 'refuse'
+    table = {
+        'f': [([good], ('run', dict(a=good, b=None, ctx=ctxobj))), ({'a': good}, ('run', dict(a=good, b=None, ctx=ctxobj))),
+              ({'a': good, 'ctx': 'evil'}, 'refuse'), ([good, 'evil'], ('run', dict(a=good, b='evil', ctx=ctxobj)) if not typed else 'refuse-or-typed'),
+              ([good, good, good], 'refuse'), ({'a': good, 'b': good}, ('run', dict(a=good, b=good, ctx=ctxobj))), ([], 'refuse'),
+              ({'a': bad}, 'refuse' if typed else ('run', dict(a=bad, b=None, ctx=ctxobj))), ({'ctx': 'evil'}, 'refuse')],
+        'g': [([good], 'refuse'), ({'a': good}, 'refuse'), ({'a': good, 'ctx': 'c'}, ('run', dict(a=good, b=None, ctx='c'))),
+              ([good, 'c'], ('run', dict(a=good, b=None, ctx='c'))), ([good, 'c', good], ('run', dict(a=good, b=good, ctx='c'))),
+              ([good, 'c', good, good], 'refuse'), ({'ctx': 'c'}, 'refuse')],
+    }
+    obs = []
+    for target in (case['first'], 'f', 'g', 'f'):
+        for params, want in table[target]:
+            if want == 'refuse-or-typed':
+                # [good, 'evil'] binds b='evil': refused iff 'evil' does not conform to the annotation of b
+                want = 'refuse' if case['ann'] == 'int' else ('run', dict(a=good, b='evil', ctx=ctxobj))
+            del log[:]
+            text = json.dumps({'jsonrpc': '2.0', 'id': 1, 'method': target, 'params': params})
+            try:
+                if is_async:
+                    loop = VLoop()
+                    try:
+                        resp = json.loads(loop.run(d.dispatch(text, context=ctxobj))[0])
+                    finally:
+                        loop.close()
+                else:
+                    resp = json.loads(d.dispatch(text, context=ctxobj)[0])
+            except Exception as e:   # noqa
+                resp = {'raised': '%s: %s' % (type(e).__name__, e)}
+            rec.transitions += 1
+            code = resp.get('error', {}).get('code') if 'error' in resp else None
+            problem = None
+            if 'raised' in resp:
+                problem = 'dispatch raised'
+            elif want == 'refuse':
+                if code != -32602 or log:
+                    problem = 'call that must be refused was not (%s)' % ('executed' if log else 'code %s' % code)
+            else:
+                if code is not None:
+                    problem = 'conforming call refused (code %s)' % code
+                elif len(log) != 1 or any(log[0][k] != want[1][k] for k in ('a', 'b')) or \
+                        (log[0]['ctx'] is not want[1]['ctx'] and log[0]['ctx'] != want[1]['ctx']):
+                    problem = 'method saw other arguments / another context'
+            rec.outcomes['ctx:%s:%s' % ('refuse' if want == 'refuse' else 'run', 'ok' if not problem else 'BAD')] += 1
+            if problem:
+                rec.violation('C14:context parameter under the %s validator:%s' % (v.split('-')[0], problem),
+                              dict(case, target=target, params=params), expected=repr(want), observed=dict(response=resp, saw=repr(log)))
+            obs.append(problem)
+    return tuple(obs)
+
+
 def gen_cases(ctx):
+    yield from gen_ctx(ctx)
     yield from gen_pd(ctx)
     yield from gen_js(ctx)
 
@@ -365,7 +478,7 @@ def gen_cases(ctx):
 def run_case(case, rec):
     from mc.core import Recorder
     r = Recorder()
-    obs = run_js(case, r) if case['part'] == 'js' else run_pd(case, r)
+    obs = run_js(case, r) if case['part'] == 'js' else (run_ctx(case, r) if case['part'] == 'ctx' else run_pd(case, r))
     r.states += 1
     r.traces += 1
     r.nontrivial_n += 1
@@ -392,9 +505,9 @@ def replay(doc):
     from mc.core import Recorder, jdump
     rec = Recorder()
     c = doc['case']
-    case = {k: c[k] for k in ('part', 'sig', 'frags', 'required', 'addl', 'excluded', 'anns', 'coerce') if k in c}
+    case = {k: c[k] for k in ('part', 'sig', 'frags', 'required', 'addl', 'excluded', 'anns', 'coerce', 'validator', 'first', 'disp', 'ann') if k in c}
     run_case(case, rec)
-    vs = [v for v in rec.violations if v['case']['input'] == c['input'] and v['case']['disp'] == c['disp']] or rec.violations
+    vs = [v for v in rec.violations if v['case'].get('input') == c.get('input') and v['case']['disp'] == c['disp']] or rec.violations
     for v in vs[:5]:
         print('VIOLATION-REPLAY signature=%s\n  case=%s\n  expected=%s\n  observed=%s' % (
             v['signature'], jdump(v['case'])[:400], jdump(v['expected'])[:300], jdump(v['observed'])[:300]))
